@@ -554,6 +554,11 @@ pub fn c09(h: &Hist, s: u8, v: &mut Verdicts) {
         if uns.len() != shared_n {
             v.fail("C09", format!("store {}: subscriber {} ({}) received on_unsubscribe {} times (unsubscribe() calls: {}, store stopped: yes)", s, si.id, kind_name(si), uns.len(), t.uinv.len()));
         } else {
+            // released too early: before anybody asked for it (its own unsubscribe() or a shutdown)
+            let earliest = t.uinv.first().copied().unwrap_or(INF).min(first_shutdown);
+            if uns[0].seq < earliest {
+                v.fail("C09", format!("store {}: subscriber {} ({}) received on_unsubscribe at seq {} although neither unsubscribe() nor a shutdown had been invoked yet (first at seq {})", s, si.id, kind_name(si), uns[0].seq, earliest));
+            }
             let settled = settled_stop_ret(h, s);
             let deadline = t.uret.first().copied().unwrap_or(INF).min(settled);
             if uns[0].seq > deadline {
